@@ -1,4 +1,5 @@
 import Cvss.Proofs.Parse2Core
+import Cvss.Proofs.DefectMove
 /-!
 # v2.0 parser proofs, part 7: the error contract (C18)
 
@@ -357,6 +358,56 @@ theorem err_unknown {w : List Pair} (hw : ∃ s0, Witness s0 w) (j : Nat) (a v s
   · show nstep tbl _ _ a = _
     rw [nstep_unknown _ _ ha hnil]; exact hstep
 
+/-- the premises of a `move` defect, unfolded -/
+theorem move_unfold {w : List Pair} {i j : Nat} {s : Bytes} {e : Spec.ErrVal}
+    (h : (Defect.move i j).apply .v20 w = some (s, e)) :
+    ∃ p, w[i]? = some p ∧ j ≠ i ∧ j < w.length ∧
+      s = joinSlash ((insertAt (w.eraseIdx i) j p).map render) ∧ e = (3, []) := by
+  simp only [Defect.apply] at h
+  cases hwi : w[i]? with
+  | none => simp [hwi] at h
+  | some p =>
+    simp only [hwi] at h
+    split at h
+    · cases h
+    · rename_i hcond
+      simp only [Option.some.injEq, Prod.mk.injEq] at h
+      exact ⟨p, rfl, by omega, by omega, h.1.symm, h.2.symm⟩
+
+/-- "misplaced", in general: element `i` taken out and put back at position `j ≠ i`. No exception of the
+    F3 kind: the result has the length of `w`, so the first element the automaton refuses is always among
+    the first 14 parts and never after a complete environmental group. -/
+theorem err_move {w : List Pair} (hw : ∃ s0, Witness s0 w) (i j : Nat) (s : Bytes)
+    (e : Spec.ErrVal) (h : (Defect.move i j).apply .v20 w = some (s, e)) :
+    parseK K s = .err ⟨e.1, e.2⟩ := by
+  obtain ⟨hsh, hl, _, hlen⟩ := witness_facts hw
+  obtain ⟨p, hwi, hji, hj, rfl, rfl⟩ := move_unfold h
+  show parseK K _ = .err eOrder
+  have hgood := F_move _ hsh i (by simpa using lt_of_getElem? hwi) j (by simpa using hj) hji
+  rw [names_getD hwi] at hgood
+  obtain ⟨p', hp', hnf⟩ := good3_spec hgood
+  refine fail_nfail K _ ?_ p' eOrder (by rw [Move.map_insertAt, Move.map_eraseIdx]; exact hnf) hp'
+  intro x hx
+  exact hl x (Move.mem_moved hwi hx)
+
+/-- the exact form of "cut short inside a started group": any proper non-empty prefix whose abbreviations
+    are not themselves a complete vector (covers `n = 9` of base+environmental and `n = 11` of
+    base+temporal+environmental, which `Defect.truncate` leaves out) -/
+theorem err_truncate_exact {w : List Pair} (hw : ∃ s0, Witness s0 w) (n : Nat) (h1 : 1 ≤ n) (h2 : n < w.length)
+    (h3 : (w.take n).map (·.1) ∉ shapes) :
+    parseK K (joinSlash ((w.take n).map render)) = .err eTooShort := by
+  obtain ⟨hsh, hl, _, hlen⟩ := witness_facts hw
+  have hrun := F_run _ hsh n (by simp; omega)
+  rw [← List.map_take] at hrun
+  have hi := F_trunc_exact _ hsh n (by simpa using h2) h1 (by rw [← List.map_take]; exact h3)
+  rw [← List.map_take] at hi
+  refine fail_short K (w.take n) (fun x hx => hl x (List.mem_of_mem_take hx)) ?_ ?_ _ hrun hi
+  · intro h0
+    have : (w.take n).length = 0 := by rw [h0]; rfl
+    rw [List.length_take] at this
+    omega
+  · rw [List.length_take]; omega
+
 /-- F3, characterised: under `afterEnv` the documented code 3 is promised and code 4 is returned -/
 theorem err_afterEnv {w : List Pair} (hw : ∃ s0, Witness s0 w) (d : Defect) (s : Bytes)
     (e : Spec.ErrVal) (h : d.apply .v20 w = some (s, e)) (ha : afterEnv w d = true) :
@@ -404,6 +455,7 @@ theorem err_afterEnv {w : List Pair} (hw : ∃ s0, Witness s0 w) (d : Defect) (s
   | removeMandatory i => simp [afterEnv] at ha
   | swap i => simp [afterEnv] at ha
   | truncate n => simp [afterEnv] at ha
+  | move i j => simp [afterEnv] at ha
 
 /-- the error contract for every defect that does not put an element after a complete environmental group -/
 theorem err_partial {w : List Pair} (hw : ∃ s0, Witness s0 w) (d : Defect) (s : Bytes)
@@ -417,6 +469,7 @@ theorem err_partial {w : List Pair} (hw : ∃ s0, Witness s0 w) (d : Defect) (s 
   | removeMandatory i => simp [Defect.apply] at h
   | swap i => exact err_swap K hw i s e h
   | truncate n => exact err_truncate K hw n s e h
+  | move i j => exact err_move K hw i j s e h
 
 end contract
 end Proofs.Parse2
